@@ -20,7 +20,7 @@ RULE = ("op sets: 2-3 threads x 1-3 operations from {safe/unsafe register, remov
         "non-trivial = the schedule contains at least one context switch inside an operation")
 ASSUMPTIONS = ["granularity is the source line (CPython may also switch between bytecodes of a line)",
                "for SqlStorage each storage call is atomic for the scheduler (a thread is never parked inside an open sqlite transaction)"]
-REQUIRED_REACH = ["socket_histories", "schedules_explored", "histories_linearizable", "concurrent_safe_registers", "concurrent_removes", "sql_schedules", "sql_stress_entries_read", "autoclean_histories", "snapshot_histories_daemon", "snapshot_histories_inprocess"]
+REQUIRED_REACH = ["socket_histories", "schedules_explored", "histories_linearizable", "concurrent_safe_registers", "concurrent_removes", "sql_schedules", "sql_stress_entries_read", "autoclean_histories", "snapshot_histories_daemon", "snapshot_histories_inprocess", "bulk_removal_histories"]
 SHARD_TIMEOUT = {"quick": 240, "thorough": 3000}
 NSNAME = "Pyro.NameServer"
 URIS = ["PYRO:o1@h:1", "PYRO:o2@h:2", "PYRO:o3@h:3"]
@@ -430,6 +430,93 @@ def snapshot_stress(P, rec, r, nhist, workdir, via_daemon):
         rec.count("snapshot_histories_daemon" if via_daemon else "snapshot_histories_inprocess")
 
 
+def bulk_removal_stress(P, rec, r, nhist, workdir):
+    """(f) a removal by prefix or regex is ONE operation however many names it matches: while one client removes a group of a few hundred names,
+    a second one removes a member by name (or the whole group again) and a third keeps listing and counting. The removal counts add up to the
+    size of the group; every listing / count shows the whole group, the group less the one member, or nothing."""
+    import threading
+    from vlib import yieldinj
+    N = P.nameserver
+    for h in range(nhist):
+        if rec.should_stop(6):
+            break
+        backend = ("memory", "sql")[h % 2]
+        K = r.choice([101, 130, 230, 257]) if backend == "memory" else r.choice([101, 130])
+        storage = N.MemoryStorage() if backend == "memory" else N.SqlStorage(os.path.join(workdir, "bulk-%d.sqlite" % h))
+        ns = N.NameServer(storage)
+        ns.register("keep.me", "PYRO:k@h:1")
+        for i in range(K):
+            ns.register("grp.%04d" % i, "PYRO:g%d@h:1" % i, metadata={"g"})
+        base = ns.count() - K
+        second = r.choice(["name", "name", "prefix", "regex"])
+        victim = "grp.%04d" % r.randrange(K // 2, K)
+        counts, errs, seen = {}, [], []
+        go = threading.Event()
+        stop = threading.Event()
+
+        def remover_a():
+            go.wait(5)
+            try:
+                counts["a"] = ns.remove(prefix="grp.") if h % 4 < 2 else ns.remove(regex=r"grp\.\d+")
+            except Exception as x:
+                errs.append("bulk removal: %s: %r" % (type(x).__name__, x))
+
+        def remover_b():
+            go.wait(5)
+            time.sleep(r.choice([0, 0.0002, 0.001]))
+            try:
+                counts["b"] = ns.remove(name=victim) if second == "name" else (ns.remove(prefix="grp.") if second == "prefix" else ns.remove(regex="grp"))
+            except Exception as x:
+                errs.append("second removal: %s: %r" % (type(x).__name__, x))
+
+        def lister():
+            go.wait(5)
+            try:
+                while not stop.is_set():
+                    seen.append(("list", len(ns.list(prefix="grp."))))
+                    seen.append(("count", ns.count() - base))
+                    seen.append(("list-regex", len(ns.list(regex="grp"))))
+            except Exception as x:
+                errs.append("listing: %s: %r" % (type(x).__name__, x))
+        ts = [threading.Thread(target=f, daemon=True) for f in (remover_a, remover_b, lister)]
+        # (every line of NameServer.remove takes a moment: whatever it does outside its lock, others get their turn)
+        yieldinj.enable(("Pyro5/nameserver.py",), 0.02, r.getrandbits(30), max_sleep=0.002, delay_funcs=(("Pyro5/nameserver.py", "remove", 0.0004),))
+        try:
+            for t in ts:
+                t.start()
+            go.set()
+            ts[0].join(60)
+            ts[1].join(60)
+            time.sleep(0.01)
+            stop.set()
+            ts[2].join(30)
+        finally:
+            n_inj, _ = yieldinj.disable()
+        rec.count("injected_yields", n_inj)
+        left = len(ns.list(prefix="grp."))
+        ns.storage.close()
+        rec.case(("bulkremove", backend, K, second, rec.seed, h), nontrivial=True, sample={"bulk_removal": backend, "group": K, "second": second, "listings": len(seen)} if h < 2 else None)
+        if any(t.is_alive() for t in ts):
+            rec.inconc("bulk removal history did not complete")
+            continue
+        if errs:
+            rec.violation("internal-error:bulk-removal", "%s back-end, group of %d names: %s" % (backend, K, errs[0]), None)
+            continue
+        total = counts.get("a", 0) + counts.get("b", 0)
+        if total != K or left:
+            rec.violation("concurrent-removals-miscounted:bulk", "%s back-end: a group of %d names was removed by prefix/regex (reported %r) while another client removed %s (reported %r): together they report %d removed entries, %d are left" % (
+                backend, K, counts.get("a"), victim if second == "name" else "the group by " + second, counts.get("b"), total, left), None)
+            continue
+        allowed = {K, 0} | ({K - 1} if second == "name" else set())
+        odd = [x for x in seen if x[1] not in allowed]
+        if odd:
+            rec.violation("listing-never-existed:half-done-bulk-removal", "%s back-end: while a group of %d names was being removed in ONE operation (and %s by another client), a %s showed %d of them: "
+                          "no sequential order of the removals has such a state" % (backend, K, "one member by name" if second == "name" else "the group again", odd[0][0], odd[0][1]), None)
+            continue
+        rec.count("bulk_removal_histories")
+        rec.count("bulk_removal_listings", len(seen))
+
+
 def sql_stress(P, rec, r, nhist, workdir):
     """(c) free-running threads on a NameServer over SqlStorage (no sockets), sleeps injected at the lines of nameserver.py (storage code included: the
     controlled scheduler treats a storage call as atomic). Every written version of an entry is unique (uri number == metadata number), so every entry a
@@ -767,6 +854,7 @@ def run_shard(shard, rec):
         if shard["backend"] == "snapshot":
             snapshot_stress(P, rec, r, shard["histories"], workdir, False)
             snapshot_stress(P, rec, r, max(2, shard["histories"] // 3), workdir, True)
+            bulk_removal_stress(P, rec, r, shard["histories"], workdir)
             return
         if shard["backend"] == "memory":
             rec.count("sql_schedules")
